@@ -12,6 +12,7 @@ import SV.Model.C18
 import SV.Model.C08
 import SV.Model.C16
 import SV.Model.C17
+import SV.Model.C19
 import SV.Model.PolyOps
 /-!
 `svdriver <property>`: reads one request per line on stdin, prints the model's response.
@@ -35,6 +36,7 @@ def dispatch (prop : String) : Option (String → String) :=
   | "C08" => some C08.Driver.handle
   | "C16" => some C16.handle
   | "C17" => some C17.Driver.handle
+  | "C19" => some C19.Driver.handle
   | "POLY" => some PolyOps.handle
   | _ => none
 
